@@ -8,3 +8,7 @@ chk("C19", "runtime monitoring: reference-model monitor (event-history fold) aft
     "The library's own URI-update handler and update loop (both generations) are fed synthetic tree-event histories (exhaustive to a bounded length, PRNG beyond) and the live announcement set is compared with an independent fold after every prefix; earlier snapshots are re-read at the end; host selection is drawn thousands of times per announcement set and every draw must be eligible. Held on the histories and draws observed.",
     "Trusts: synthetic TreeCacheEvents stand in for ZooKeeper; tag-guarded exports add no behaviour; the frequency bound is distribution-free (delta 1e-12) and only catches gross mis-weighting.",
     "DESIGN.md 3 C19")
+chk("C20", "runtime monitoring: file-system fingerprint monitor (inode/mode/size/mtime/ctime/sha256) around the real clean / generate, ownership reference model, strace syscall audit",
+    "Directory trees (enumerated to a bound, PRNG beyond, incl. look-alike names, symlinks, '.', missing target) are built on disk, the real CleanTargetDir (both generations) and the real generator (child processes) run on them, and every non-owned entry must keep its fingerprint, every owned file must vanish, emptied directories must go, a second clean must change nothing, and regeneration must reproduce the same generated files; a sample runs under strace and every successful mutating syscall must target an owned path.",
+    "Trusts: the set-based ownership model (suffix .gr.go or manifest name, any depth); fingerprints detect touching except a restore of all of content+mtime+ctime (strace sample covers that).",
+    "DESIGN.md 3 C20")
